@@ -1,6 +1,8 @@
 // Package slices: corpus case for slice copies (C16).
 package slices
 
+import "verifcorpus/ext"
+
 type ID int
 
 type Item struct {
@@ -69,3 +71,10 @@ type DstG struct {
 	Tracks []string
 	Scores []int
 }
+
+// SrcC / DstC: a nested struct of an imported package with a slice of a type this package cannot
+// spell: the tool cannot write make([]ext.unit, n); whatever it does instead, the destination must
+// not share storage with the source.
+type SrcC struct{ Bag ext.Bag }
+
+type DstC struct{ Bag ext.Bag2 }
